@@ -1,4 +1,4 @@
-import PxProofs.PersistSeg
+import PxProofs.PersistFwd
 import PxProofs.PersistPort
 import PxProofs.ForwardEmit2
 /-!
@@ -107,7 +107,7 @@ theorem firstOk_render (cfg : Forward.Cfg) (hc : CfgOk cfg) (r : Req) (hwf : r.W
 
 /-- a well-formed absolute-form request that is no protocol switch, as FOLLOW-UP request -/
 theorem laterOk_render (cfg : Forward.Cfg) (hc : CfgOk cfg) (r : Req) (hwf : r.WF) (habs : r.isAbsolute = true)
-    (hn : notUpgrade r = true) : LaterOk cfg (render r) (render (fwdImpl false cfg r)) := by
+    (hn : notUpgrade r = true) : ∃ P, LaterOk cfg (render r) P (render (fwdImpl false cfg r)) := by
   obtain ⟨host, port, pq, ht⟩ : ∃ host port pq, r.target = .absolute host port pq := by
     cases htg : r.target with
     | absolute h p q => exact ⟨h, p, q, rfl⟩
